@@ -210,6 +210,42 @@ def gen_cases(run, thorough):
             qs, ws, lb = sanitized(p)
             for d in (-1, 0, 1):
                 add("incompressible-block-boundary", p, "rand", (1 << lb) + d, sd(), rng.choice(["one", "chunks"]))
+    # I. encoder-side tracking of the decoder's state across meta-blocks that end up stored: segments of PRNG bytes
+    #    with one embedded repeat at a fresh distance (the match finder advances the last-distance ring, the block is
+    #    then re-emitted uncompressed: via should_compress == false when the repeat is < 1% of the block, via
+    #    "bigger than the input" otherwise), each followed by a segment whose repeat uses the same distance, that
+    #    distance +-1..3, or one of the decoder's initial ring values; delimited by FLUSH, or by the block size alone
+    for q in range(2, 12):
+        for _ in range((3 if q >= 10 else 5) * (3 if thorough else 1)):
+            seg = rng.choice([200, 400, 700, 1000, 1500, 2500, 4000, 7000]) if q < 10 else rng.choice([200, 400, 700, 1000, 1500])
+            nseg = rng.randrange(4, 10)
+            p = [(1, q), (2, rng.choice([10, 12, 16, 18, 22, 24]))]
+            r = rng.random()
+            if r < 0.2:
+                p.append((167, 1))
+            elif r < 0.35:
+                p.append((168, 1))
+            if rng.random() < 0.15:
+                p += [(6, 1), (2, rng.choice([25, 28]))]
+            line = "E P=%s D=rs%d:%d:%d L=%s CAPS=%s" % (pstr(p), seg, seg * nseg, sd(), ",".join(["f%d" % seg] * (nseg - 1) + ["eR"]),
+                                                      rng.choice(["65536", "65536", "1,2,3", "17"]))
+            d = dict(p)
+            qs, w, lb = sanitized(p)
+            cases.append((line, {"section": "ring-tracking-flush", "quality": qs, "quality_set": q, "lgwin": w, "lgwin_set": d.get(2, 22), "lgblock": lb,
+                                 "lgblock_set": 0, "mode": 0, "large_window": int(d.get(6, 0) != 0), "kind": "rs%d" % seg, "n": seg * nseg, "style": "flush-per-segment",
+                                 "params": dict(("p%d" % k, v) for k, v in p)}))
+    for q in (2, 3, 4, 5, 9):
+        for _ in range(2 * (2 if thorough else 1)):
+            p = [(1, q), (2, rng.choice([16, 18, 22]))] + ([(167, 1)] if rng.random() < 0.2 else [])
+            qs, w, lb = sanitized(p)
+            seg = 1 << lb
+            nseg = rng.randrange(4, 7)
+            if seg * nseg > 400000:
+                nseg = 4
+            line = "E P=%s D=rs%d:%d:%d L=%s CAPS=65536" % (pstr(p), seg, seg * nseg, sd(), rng.choice(["eR", "p%d,eR" % (seg * nseg), ",".join(["p%d" % seg] * (nseg - 1) + ["eR"])]))
+            cases.append((line, {"section": "ring-tracking-block-boundary", "quality": qs, "quality_set": q, "lgwin": w, "lgwin_set": w, "lgblock": lb,
+                                 "lgblock_set": 0, "mode": 0, "large_window": 0, "kind": "rs%d" % seg, "n": seg * nseg, "style": "no-flush",
+                                 "params": dict(("p%d" % k, v) for k, v in p)}))
     # H. thorough only: inputs beyond 2^24 bytes (several maximal meta-blocks, lgblock 24 blocks, quality 0/1 fragments
     #    larger than MLEN can express); judged by the two reference decoders only (NOHEX: too large for the extracted D)
     if thorough:
@@ -418,6 +454,25 @@ def check(run):
     mark("streams: implementation + reference decoders")
     dres = dict(zip(didx, vlib.run_lines(model, dreq, timeout=2400)))
     mark("streams: extracted decoder D")
+    # the decoder's state at every completed flush / finish, computed by D on the emitted prefix, against the state the
+    # encoder keeps for it (dist_cache_, prev_byte_, prev_byte2_): asked for all snapshots of the ring-tracking family,
+    # for two snapshots of every other stream of moderate size (quality >= 2)
+    rreq, ridx = [], []
+    for k, ((c, meta), o) in enumerate(zip(cases, impl)):
+        f = parse_r(o)
+        if not f or f.get("st") != "ok" or f.get("rg", "-") == "-" or f.get("out", "-").startswith("-") or meta["quality"] < 2:
+            continue
+        snaps = f["rg"].split(";")
+        if not meta["section"].startswith("ring-tracking"):
+            if len(f["out"]) > 100000:
+                continue
+            snaps = rng.sample(snaps, min(2, len(snaps)))
+        for sn in snaps:
+            n = int(sn.split(":")[0])
+            rreq.append("DR 1 " + f["out"][:2 * n])
+            ridx.append((k, sn))
+    rres = vlib.run_lines(model, rreq, timeout=1200) if rreq else []
+    mark("decoder state at flush points (D on prefixes)")
     # configuration correspondence on the same cases
     creq = []
     for (c, meta), o in zip(cases, impl):
@@ -594,7 +649,69 @@ def check(run):
             case.update({"script": cases[k][0], "status": "stored-writer"})
             report("correspondence", case, {"impl": f["out"][:300], "model": m[:300]},
                    broken="stored-stream writer: model/MetaBlockHeader.v + store_chunks vs the bytes the encoder emitted for uncompressed meta-blocks", found_input=False)
-    run.note("streams: %d cases, %s; stored-stream writer model: %s" % (len(cases), stats, stored_stats))
+    # ---- encoder-tracked decoder state vs D
+    POISON = 0x7ffffff0
+    track = {"snapshots_checked": 0, "ring_differs": 0, "context_bytes_differ": 0, "streams": 0}
+    per_stream = {}
+    for (k, sn), ans in zip(ridx, rres):
+        per_stream.setdefault(k, []).append((sn, ans))
+    for k, lst in per_stream.items():
+        c, meta = cases[k]
+        catable = meta["params"].get("p167", 0) != 0
+        track["streams"] += 1
+        prev_c = prev_u = 0
+        segs = {}
+        fk = parse_r(impl[k])
+        for t in fk.get("sg", "-").split(","):
+            m = t.split(":")
+            if len(m) >= 3 and m[0][:-1].isdigit():
+                segs[int(m[0][:-1])] = (m[0][-1], int(m[1]), int(m[2]), m[3] if len(m) > 3 else "")
+        for j, (sn, ans) in enumerate(sorted(lst, key=lambda x: int(x[0].split(":")[0]))):
+            a = dict(t.split("=", 1) for t in ans.split()) if ans.startswith("ring=") else None
+            track["snapshots_checked"] += 1
+            e_len, e_ring, e_p = sn.split(":")
+            enc = [int(x) for x in e_ring.split(".")]
+            bad = None
+            if a is None:
+                bad = "D cannot parse the emitted prefix: " + ans[:60]
+            else:
+                dec = [int(x) for x in a["ring"].split(".")]
+                pushes = int(a["pushes"])
+                for i in range(4):
+                    if catable and i >= pushes:
+                        ok_i = enc[i] == POISON
+                    else:
+                        ok_i = enc[i] == dec[i]
+                    if not ok_i:
+                        bad = "last-distance ring: encoder %s, decoder %s after %d pushes%s" % (enc, dec, pushes, " (catable: untouched slots must stay 0x7ffffff0)" if catable else "")
+                        track["ring_differs"] += 1
+                        break
+                if bad is None and int(a["pos"]) >= 2 and e_p != a["p"]:
+                    bad = "context bytes: encoder %s, decoder %s" % (e_p, a["p"])
+                    track["context_bytes_differ"] += 1
+                # what happened to the segment that ends here (flush-delimited family only)
+                if meta["section"] == "ring-tracking-flush" and len(lst) == len(fk["rg"].split(";")):
+                    cu, uu = int(a["c"]), int(a["u"])
+                    sg = segs.get(j)
+                    if sg and sg[0] == "A":
+                        frac = sg[1] / float(int(sg[3]))
+                        if uu > prev_u and cu == prev_c:
+                            reach("stored_block_containing_a_repeat")
+                            reach("stored_block_repeat>=1.2%_of_block(bigger-than-input_fallback)" if frac >= 0.012 else
+                                  "stored_block_repeat<0.9%_of_block(should_compress==false_fallback)" if frac < 0.009 else "stored_block_repeat_about_1%")
+                        else:
+                            reach("block_with_one_repeat_emitted_compressed")
+                    if sg and sg[0] == "B" and cu > prev_c:
+                        reach("block_after_stored_block_reuses_distance:" + ("initial_ring_value" if sg[3] == "init" else "delta_%s" % sg[3].lstrip("-")))
+                    prev_c, prev_u = cu, uu
+            if bad:
+                case = dict(meta)
+                case.update({"script": c, "status": "decoder-state-tracking", "at_emitted_bytes": int(e_len)})
+                report("correspondence", case, {"impl": sn, "model": ans, "spec": bad},
+                       broken="the state the encoder keeps for the decoder (dist_cache_/prev_byte_) differs from the decoder spec's state after the emitted prefix: " + bad,
+                       found_input=False)
+                break
+    run.note("streams: %d cases, %s; stored-stream writer model: %s; decoder-state tracking: %s" % (len(cases), stats, stored_stats, track))
     mark("streams: verdicts + stored-writer model")
     # ------------------------------------------------------------------ model correspondence: configuration sweep, WrapPosition, ring buffer
     cfg_lines = []
@@ -718,6 +835,10 @@ def check(run):
                 + ["mode_%d" % m for m in range(7)] + ["quality_%d" % q for q in range(12)]
                 + [INFO_KEYS[k] for k in (1, 2, 3, 4, 5, 7, 13, 14, 15, 16, 17, 18, 19, 20, 21, 22, 23, 24, 26, 27, 28, 31, 32)]
                 + [INFO_KEYS[k] + ">=2" for k in (8, 9, 10, 11, 12)]
+                + ["stored_block_containing_a_repeat", "stored_block_repeat>=1.2%_of_block(bigger-than-input_fallback)",
+                   "stored_block_repeat<0.9%_of_block(should_compress==false_fallback)", "block_after_stored_block_reuses_distance:delta_0",
+                   "block_after_stored_block_reuses_distance:delta_1", "block_after_stored_block_reuses_distance:delta_2",
+                   "block_after_stored_block_reuses_distance:delta_3", "block_after_stored_block_reuses_distance:initial_ring_value"]
                 + (["input_past_2^30", "input_past_2^31", "input_past_2^32", "lgwin30_ring_buffer_lap_past_2^31"] if thorough else []))
     run.cov["evaluations"] = len(cases) + len(cfg_lines) + len(wlines) + len(blines) + st["mutants"] + len(giant)
     run.cov["distinct_nontrivial"] = len(nontriv)
@@ -732,6 +853,7 @@ def check(run):
     run.cov["traces_validated_against_impl"] = stats["ok"]
     run.cov["stream_stats"] = stats
     run.cov["stored_stream_writer_model"] = stored_stats
+    run.cov["decoder_state_tracking"] = track
     run.cov["stream_calls_total"] = tot_calls
     run.cov["histograms"] = hist
     run.cov["reached_classes"] = dict(sorted(reached.items()))
